@@ -9,6 +9,7 @@ import (
 	"math/rand"
 	"net/http"
 	"os"
+	"reflect"
 	"strings"
 	"sync"
 	"sync/atomic"
@@ -150,6 +151,7 @@ type clientResult struct {
 	status int
 	body   []byte
 	err    error
+	hdr    http.Header
 }
 
 func (e *appEnv) clientRequest(user, method, path string, body []byte, timeout time.Duration) (string, chan clientResult) {
@@ -160,8 +162,8 @@ func (e *appEnv) clientRequest(user, method, path string, body []byte, timeout t
 		if user != "" {
 			hdr["X-AppEngine-User-Email"] = user
 		}
-		st, b, _, err := e.do(e.defPort, method, path, hdr, body, timeout)
-		ch <- clientResult{st, b, err}
+		st, b, rh, err := e.do(e.defPort, method, path, hdr, body, timeout)
+		ch <- clientResult{st, b, err, rh}
 	}()
 	return rid, ch
 }
@@ -597,7 +599,9 @@ func appRelayDriver(a *Args) {
 		fetchSame := listed && st == 200 && ok && m == "POST" && target == path && bytes.Equal(fb, body)
 		respBody := pattern(fmt.Sprintf("resp-%s", rid), respSize)
 		var raw bytes.Buffer
-		fmt.Fprintf(&raw, "HTTP/1.1 200 OK\r\nContent-Length: %d\r\nX-Relay: %s\r\nCache-Control: no-store\r\n\r\n", len(respBody), rid)
+		// "exactly the response posted": status, body and the header fields, repeated ones included
+		fmt.Fprintf(&raw, "HTTP/1.1 200 OK\r\nContent-Length: %d\r\nX-Relay: %s\r\nCache-Control: no-store\r\nSet-Cookie: a=1; Path=/\r\nSet-Cookie: b=%s\r\n"+
+			"Link: </a>; rel=preload\r\nLink: </b>; rel=prefetch\r\nX-Empty:\r\n\r\n", len(respBody), rid, rid)
 		raw.Write(respBody)
 		pst, _, _, _ := e.do(e.agPort, "POST", "/agent/response", agent(rid), raw.Bytes(), 0)
 		var cr clientResult
@@ -607,7 +611,9 @@ func appRelayDriver(a *Args) {
 		case <-time.After(45 * time.Second):
 			hung = true
 		}
-		respSame := pst == 200 && cr.status == 200 && bytes.Equal(cr.body, respBody)
+		respSame := pst == 200 && cr.status == 200 && bytes.Equal(cr.body, respBody) && cr.hdr != nil && cr.hdr.Get("X-Relay") == rid &&
+			reflect.DeepEqual(cr.hdr.Values("Set-Cookie"), []string{"a=1; Path=/", "b=" + rid}) &&
+			reflect.DeepEqual(cr.hdr.Values("Link"), []string{"</a>; rel=preload", "</b>; rel=prefetch"}) && cr.hdr.Get("Cache-Control") == "no-store"
 		// a completed request is no longer listed (another pending request makes the list call return at once)
 		rid2, ch2 := e.clientRequest(b1.EndUser, "GET", "/relay/filler-"+randToken(rng, 6), nil, 3*time.Second)
 		e.storedUnder(rid2, 5*time.Second)
@@ -918,7 +924,7 @@ func appRelayConcurrentDriver(a *Args) {
 			go func(rid string, b appBackend, size int) {
 				hdr := map[string]string{"X-Appengine-Request-Log-Id": rid, "X-AppEngine-User-Email": b.EndUser}
 				st, body, _, err := e.do(e.defPort, "POST", "/cc/"+rid, hdr, pattern(rid, size), 50*time.Second)
-				ch <- clientResult{st, body, err}
+				ch <- clientResult{st, body, err, nil}
 			}(rid, b, size)
 			mu.Lock()
 			clients = append(clients, cl{rid, ch, b})
